@@ -163,7 +163,9 @@ static int sweep(Scn& s, long maxk, const std::string& layers, long startk = 1) 
   c14::inject_new = layers.find('n') != std::string::npos;
   c14::inject_gmp = layers.find('g') != std::string::npos;
   // warm-up: function-local statics, stream locale, caches
-  s.build(); s.call(); bool v0 = s.valid(); std::string r0 = s.result(); s.destroy(); purge_caches();
+  s.build(); s.call(); bool v0 = s.valid(); std::string r0 = s.result();
+  try { (void) s.arg_unchanged(); (void) s.strong(); (void) s.usable(); } catch (...) {}     // the probes' own first-use allocations (function-local statics) belong to the warm-up
+  s.destroy(); purge_caches();
   std::cout << "scenario " << s.name << " warm valid=" << v0 << std::endl;
   SweepStat st; long k;
   bool completed = false;
